@@ -33,6 +33,11 @@ func c12KeyClass(store string, key []byte) string {
 	for printable < len(key) && printable < 28 && key[printable] >= 0x20 && key[printable] < 0x7f {
 		printable++
 	}
+	// textual prefixes start with a lowercase word; one-byte prefixes such as 0x20 / 0x31 / 0x41 followed by an address
+	// that happens to consist of printable bytes are binary
+	if printable >= 4 && !(key[0] >= 'a' && key[0] <= 'z' && key[1] >= 'a' && key[1] <= 'z') {
+		printable = 0
+	}
 	if printable >= 4 {
 		s := string(key[:printable])
 		// cut at the first char that starts variable data (digits after an underscore-terminated word, bech32 addresses)
@@ -63,17 +68,171 @@ func c12Import(exported json.RawMessage, t time.Time, height int64) (*World, int
 	return w, panicked
 }
 
-func runC12(r *Rec) {
-	nStates, nBlocks := 4, 22
-	if r.Tier == "thorough" {
-		nStates, nBlocks = 60, 40
+// c12Phases counts the lifecycle phases present in a state about to be exported (evidence: "items in every phase")
+func c12Phases(r *Rec, w *World) {
+	ctx := w.ReadCtx()
+	now := uint64(w.now.Unix())
+	app := w.app
+	for _, rec := range app.UbiKeeper.GetUBIRecords(ctx) {
+		switch {
+		case rec.DistributionEnd != 0 && rec.DistributionLast >= rec.DistributionEnd:
+			r.Count("phase:ubi:finished(last-payout-at-or-after-end)")
+		case rec.DistributionEnd != 0:
+			r.Count("phase:ubi:running-with-end")
+		default:
+			r.Count("phase:ubi:open-ended")
+		}
 	}
-	for st := 0; st < nStates; st++ {
+	if props, ok := c12Probe2(func() []govtypes.Proposal { p, _ := app.CustomGovKeeper.GetProposals(ctx); return p }); ok {
+		for _, p := range props {
+			k := "phase:proposal:" + p.Result.String()
+			if p.ExecResult != "" {
+				k += ":" + strings.ReplaceAll(p.ExecResult, " ", "-")
+			}
+			r.Count(k)
+		}
+	}
+	for id := uint64(1); id < app.CustomGovKeeper.GetNextPollID(ctx); id++ {
+		if poll, err := app.CustomGovKeeper.GetPoll(ctx, id); err == nil {
+			if poll.VotingEndTime.Before(w.now) {
+				r.Count("phase:poll:ended:" + poll.Result.String())
+			} else {
+				r.Count("phase:poll:open")
+			}
+		}
+	}
+	us := app.MultiStakingKeeper.GetAllUndelegations(ctx)
+	r.Hist["phase:undelegation:pending"] += len(us)
+	if last := app.MultiStakingKeeper.GetLastUndelegationId(ctx); last > uint64(len(us)) {
+		r.Hist["phase:undelegation:claimed"] += int(last) - len(us)
+	}
+	for _, p := range app.SpendingKeeper.GetAllSpendingPools(ctx) {
+		switch {
+		case p.ClaimEnd != 0 && p.ClaimEnd < now:
+			r.Count("phase:spending-pool:claim-end-passed")
+		case sdk.Coins(p.Balances).IsZero():
+			r.Count("phase:spending-pool:empty")
+		default:
+			r.Count("phase:spending-pool:paying")
+		}
+	}
+	for _, d := range app.Layer2Keeper.GetAllDapps(ctx) {
+		r.Count("phase:dapp:" + d.Status.String())
+	}
+	for _, c := range app.CollectivesKeeper.GetAllCollectives(ctx) {
+		r.Count("phase:collective:" + c.Status.String())
+	}
+	for _, v := range app.CustomStakingKeeper.GetValidatorSet(ctx) {
+		r.Count("phase:validator:" + v.Status.String())
+	}
+	for _, c := range app.CustomGovKeeper.GetAllCouncilors(ctx) {
+		r.Count("phase:councilor:" + c.Status.String())
+	}
+	if rq := app.CustomGovKeeper.GetAllIdRecordsVerifyRequests(ctx); true {
+		r.Hist["phase:identity-request:open"] += len(rq)
+		mx := uint64(0)
+		for _, x := range rq {
+			if x.Id > mx {
+				mx = x.Id
+			}
+		}
+		if app.CustomGovKeeper.GetLastIdRecordVerifyRequestId(ctx) > mx {
+			r.Count("phase:identity-request:counter-above-largest-live-id")
+		}
+	}
+	mx := uint64(0)
+	for _, rec := range app.CustomGovKeeper.GetAllIdentityRecords(ctx) {
+		if rec.Id > mx {
+			mx = rec.Id
+		}
+	}
+	if app.CustomGovKeeper.GetLastIdentityRecordId(ctx) > mx {
+		r.Count("phase:identity-record:counter-above-largest-live-id")
+	}
+}
+
+func c12Probe2(f func() []govtypes.Proposal) (out []govtypes.Proposal, ok bool) {
+	defer func() {
+		if recover() != nil {
+			out, ok = nil, false
+		}
+	}()
+	return f(), true
+}
+
+func c12Probe(f func()) (p interface{}) {
+	defer func() { p = recover() }()
+	f()
+	return nil
+}
+
+func runC12(r *Rec) {
+	nOld, nRich, nBlocks, nRichBlocks := 2, 9, 22, 36
+	if r.Tier == "thorough" {
+		nOld, nRich, nBlocks, nRichBlocks = 20, 60, 40, 60
+	}
+	for st := 0; st < nOld+nRich; st++ {
 		nAcc, nVal := 6, 2
-		hist := c01Generate(r, nBlocks, st%2 == 1, nAcc, nVal)
-		_, w := c01Run(hist, nAcc, nVal, 0)
-		// a few more records the history generator does not create: paused validator, proposal votes happen in hist
+		var hist []c01Raw
 		label := fmt.Sprintf("state-%d", st)
+		if st < nOld {
+			hist = c01Generate(r, nBlocks, st%2 == 1, nAcc, nVal)
+		} else {
+			// rich states: every module populated through its own messages, items in every lifecycle phase; in every second
+			// state the history ends by deleting the newest identity record / verify request / claiming the newest
+			// undelegation, so that the id counters exceed the largest live id
+			nAcc, nVal = 10, 4
+			o := RichOpts{NBlocks: nRichBlocks - 6*((st-nOld)%3), NAcc: nAcc, NVal: nVal, Custody: (st - nOld) % 3, Tail: (st-nOld)%2 == 0, Label: label}
+			hist = richGenerate(r, o)
+			label = fmt.Sprintf("rich-state-%d(custody-level=%d,tail=%v)", st, o.Custody, o.Tail)
+		}
+		obs, w := c01Run(hist, nAcc, nVal, 0)
+		if n := len(obs); n > 0 && obs[n-1].panicAt != "" {
+			// block processing panicked while populating (C06's subject): no consistent state to export
+			r.Count("populate:panicked")
+			continue
+		}
+		if st >= nOld {
+			c12Phases(r, w)
+		}
+		// the export runs the modules' ExportGenesis in goroutines: a panic there cannot be recovered. Probe the one
+		// known to panic (gov AllDataRegistry writes into a nil map as soon as one entry exists) in this goroutine.
+		repaired := true
+		for try := 0; ; try++ {
+			p := c12Probe(func() { w.app.CustomGovKeeper.AllDataRegistry(w.ReadCtx()) })
+			if p == nil {
+				break
+			}
+			r.Known("C12/export/panic-data-registry", fmt.Sprintf("%s: exporting the genesis of a state with a data-registry entry panics: %.120v", label, p))
+			if try >= 6 {
+				repaired = false
+				break
+			}
+			// continue with the rest of the state: one more block whose set-up step removes the registry entries (the
+			// block's own EndBlock may enact another registry proposal: probe again)
+			gkey := w.app.GetKey("customgov")
+			br := w.Block(nil, BlockOpts{Mid: func(ctx sdk.Context) {
+				st := ctx.KVStore(gkey)
+				var keys [][]byte
+				it := sdk.KVStorePrefixIterator(st, govkeeper.DataRegistryPrefix)
+				for ; it.Valid(); it.Next() {
+					keys = append(keys, append([]byte{}, it.Key()...))
+				}
+				it.Close()
+				for _, k := range keys {
+					st.Delete(k)
+				}
+			}})
+			if br.Panicked != nil {
+				repaired = false
+				break
+			}
+			w.ApplyUpdates(br.Updates)
+		}
+		if !repaired {
+			r.Count("populate:panicked")
+			continue
+		}
 		exp, err := w.app.ExportAppStateAndValidators(false, nil)
 		if err != nil {
 			r.Fail("C12/export/error", label+": "+err.Error(), nil)
@@ -198,4 +357,34 @@ var c12Expected = map[string]string{
 	"customgov/0x08:lost": "customgov/0x08:lost",
 	"multistaking/0x03:lost": "multistaking/0x03:lost",
 	"multistaking/0x05:lost": "multistaking/0x05:lost",
+	// ---- record kinds first reached by the rich histories (richGenerate)
+	"collectives/collective_by_:lost": "collectives/collective_by_:lost",
+	"collectives/collective_:lost": "collectives/collective_:lost",
+	"custody/custody_approve_:lost": "custody/custody_approve_:lost",
+	"custody/custody_limits_status_prefix_:lost": "custody/custody_limits_status_prefix_:lost",
+	"customgov/0x10:changed": "customgov/0x10:changed",
+	"customgov/0x20:lost": "customgov/0x20:lost",
+	"customgov/0x31:invented": "customgov/0x31:invented",
+	"customgov/0x32:invented": "customgov/0x32:invented",
+	"customgov/identity_record_by_address_:lost": "customgov/identity_record_by_address_:lost",
+	"customslashing/0x04:lost": "customslashing/0x04:lost",
+	"customstaking/0x06:lost": "customstaking/0x06:lost",
+	"feeprocessing/fee_payment_:lost": "feeprocessing/fee_payment_:lost",
+	"feeprocessing/execution_:lost": "feeprocessing/execution_:lost",
+	"layer2/dapp_:lost": "layer2/dapp_:lost",
+	"layer2/dapp_user_:lost": "layer2/dapp_user_:lost",
+	"layer2/dapp_operator_:lost": "layer2/dapp_operator_:lost",
+	"layer2/dapp_operator_candidate_:lost": "layer2/dapp_operator_candidate_:lost",
+	"layer2/dapp_session_:lost": "layer2/dapp_session_:lost",
+	"layer2/dapp_session_approval_:lost": "layer2/dapp_session_approval_:lost",
+	"layer2/dapp_leader_denouncement_:lost": "layer2/dapp_leader_denouncement_:lost",
+	"layer2/bridge_registrar_:lost": "layer2/bridge_registrar_:lost",
+	"layer2/bridge_account_:lost": "layer2/bridge_account_:lost",
+	"layer2/bridge_token_:lost": "layer2/bridge_token_:lost",
+	"layer2/xam_key:lost": "layer2/xam_key:lost",
+	"multistaking/0x04:lost": "multistaking/0x04:lost",
+	"multistaking/0x07:lost": "multistaking/0x07:lost",
+	"recovery/0x01:lost": "recovery/0x01:lost",
+	"recovery/0x03:changed": "recovery/0x03:changed",
+	"recovery/0x07:lost": "recovery/0x07:lost",
 }
